@@ -14,19 +14,26 @@ import time
 OFFSET = 10_000_000
 
 
+RUN_TAG = ''
+
+
 def sub_rng(ctx, tag='v1'):
+    global RUN_TAG
+    # a second run in the same process (the failing-input search uses other seeds) must not define classes under the names
+    # of the first: the library keys META_INITIALIZER by __qualname__ (known finding meta-initializer-by-qualname)
+    RUN_TAG = '' if ctx.seed == 1 and not ctx.search else f's{ctx.seed}'
     return random.Random(f'{ctx.prop_id}:{ctx.seed}:{tag}')
 
 
 class Namer:
-    """class names that depend on the case index only (identical in a replay that skips other cases)"""
+    """class names that depend on the case index (and the run's seed) only (identical in a replay that skips other cases)"""
 
     def __init__(self, i):
         self.i, self.n = i, 0
 
     def __call__(self, prefix='K'):
         self.n += 1
-        return f'{prefix}{self.i}v{self.n}'
+        return f'{prefix}{self.i}v{self.n}{RUN_TAG}'
 
 
 def run_streams(ctx, default_stream, v1_stream, share=0.5):
